@@ -6,6 +6,8 @@
 //!   bumpmiri threads <s>    C20: threads each driving their own arena (script seed s)
 //!   bumpmiri handover <s>   C20: idle arenas handed over between threads
 //!   bumpmiri scripts <s>    C01/C03/C12: short single-threaded arena scripts (UB checks only)
+//!   bumpmiri collections <s> C13/C14/C17: Vec / String / Box programs mirrored on std
+//!   bumpmiri arena <s>      C01/C02/C10/C11/C12: every arena entry point, contents re-read, minimum alignments 1, 2, 8, 16
 
 use allocator_api2::alloc::Allocator;
 use bumpalo::Bump;
@@ -412,6 +414,280 @@ fn scenario_collections(seed: u64) {
     }
 }
 
+/// C01/C02/C10/C11/C12 under Miri: one arena of minimum alignment M driven through every arena
+/// entry point; every value handed out is remembered with what it must contain and re-read at the
+/// end and before every reset. Natively an out-of-bounds or uninitialised *read*, an overlapping
+/// `copy_nonoverlapping` or a reference used after its memory was handed out again are invisible.
+fn arena_on<const M: usize>(seed: u64) {
+    let mut r = Rng(seed ^ (M as u64) << 32 ^ 0xA7E4A);
+    let mut b = Bump::<M>::with_min_align();
+    // (address, expected bytes)
+    let mut live: Vec<(*const u8, Vec<u8>)> = Vec::new();
+    let verify = |live: &Vec<(*const u8, Vec<u8>)>, when: &str| {
+        for (i, (p, want)) in live.iter().enumerate() {
+            let got = unsafe { std::slice::from_raw_parts(*p, want.len()) };
+            if got != &want[..] {
+                fail("C02", format!("sig=C02/miri-live-block-changed {} block {} of {} bytes", when, i, want.len()));
+            }
+        }
+    };
+    let bytes = |seed: u64, n: usize| -> Vec<u8> { (0..n).map(|k| (seed as u8).wrapping_mul(31).wrapping_add(k as u8) | 1).collect() };
+    for step in 0..70u64 {
+        let x = r.next();
+        match r.below(24) {
+            0 => {
+                let p = b.alloc(x);
+                live.push((p as *const u64 as *const u8, x.to_ne_bytes().to_vec()));
+            }
+            1 => {
+                let p = b.alloc_with(|| (x as u32, 7u8));
+                let ok = p.0 == x as u32 && p.1 == 7;
+                if !ok {
+                    fail("C02", "sig=C02/miri-wrong-initial-contents alloc_with".to_string());
+                }
+            }
+            2 => {
+                if let Ok(p) = b.try_alloc([x; 3]) {
+                    let mut w = Vec::new();
+                    for _ in 0..3 {
+                        w.extend_from_slice(&x.to_ne_bytes());
+                    }
+                    live.push((p.as_ptr() as *const u8, w));
+                }
+            }
+            3 => {
+                let _ = b.try_alloc_with(|| [x as u16; 5]);
+            }
+            4 => {
+                // failing initialiser that keeps an inner allocation alive
+                let mut inner: Option<*const u64> = None;
+                let res = b.alloc_try_with(|| -> Result<[u64; 4], u32> {
+                    let q = b.alloc(x ^ 1);
+                    inner = Some(q as *const u64);
+                    if x % 2 == 0 {
+                        Err(5)
+                    } else {
+                        Ok([x; 4])
+                    }
+                });
+                if let Some(q) = inner {
+                    live.push((q as *const u8, (x ^ 1).to_ne_bytes().to_vec()));
+                }
+                match res {
+                    Ok(v) => {
+                        if v[3] != x {
+                            fail("C02", "sig=C02/miri-wrong-initial-contents alloc_try_with".to_string());
+                        }
+                    }
+                    Err(e) => {
+                        if e != 5 {
+                            fail("C11", "sig=C11/miri-error-value-changed".to_string());
+                        }
+                    }
+                }
+            }
+            5 => {
+                let res = b.try_alloc_try_with(|| -> Result<u128, [u8; 40]> { if x % 3 == 0 { Err([9; 40]) } else { Ok(x as u128) } });
+                match res {
+                    Ok(v) => {
+                        if *v != x as u128 {
+                            fail("C02", "sig=C02/miri-wrong-initial-contents try_alloc_try_with".to_string());
+                        }
+                    }
+                    Err(bumpalo::AllocOrInitError::Init(e)) => {
+                        if e != [9u8; 40] {
+                            fail("C11", "sig=C11/miri-error-value-changed try".to_string());
+                        }
+                    }
+                    Err(bumpalo::AllocOrInitError::Alloc(_)) => {}
+                }
+            }
+            6 => {
+                let n = r.below(50) as usize;
+                let src = bytes(x, n);
+                let p = b.alloc_slice_copy(&src);
+                live.push((p.as_ptr(), src));
+            }
+            7 => {
+                let n = r.below(6) as usize;
+                let src: Vec<String> = (0..n).map(|i| format!("s{}{}", i, x % 97)).collect();
+                let p = b.alloc_slice_clone(&src);
+                if p.iter().zip(src.iter()).any(|(a, c)| a != c) {
+                    fail("C02", "sig=C02/miri-wrong-initial-contents alloc_slice_clone".to_string());
+                }
+                // the arena never runs destructors: take the strings out again
+                for s in p.iter_mut() {
+                    drop(std::mem::take(s));
+                }
+            }
+            8 => {
+                let n = r.below(40) as usize;
+                let p = b.alloc_slice_fill_with(n, |i| (i as u32).wrapping_mul(x as u32));
+                if p.iter().enumerate().any(|(i, v)| *v != (i as u32).wrapping_mul(x as u32)) {
+                    fail("C02", "sig=C02/miri-wrong-initial-contents fill_with".to_string());
+                }
+            }
+            9 => {
+                let n = r.below(40) as usize;
+                let p = b.alloc_slice_fill_copy(n, x as u16);
+                let q = b.alloc_slice_fill_clone(n.min(5), &(x as u8, x));
+                let d: &mut [u64] = b.alloc_slice_fill_default(n.min(9));
+                if p.iter().any(|v| *v != x as u16) || q.iter().any(|v| v.1 != x) || d.iter().any(|v| *v != 0) {
+                    fail("C02", "sig=C02/miri-wrong-initial-contents fill_copy/clone/default".to_string());
+                }
+            }
+            10 => {
+                let n = r.below(30) as usize;
+                let p = b.alloc_slice_fill_iter((0..n).map(|i| i as u64 ^ x));
+                let mut w = Vec::new();
+                for i in 0..n {
+                    w.extend_from_slice(&(i as u64 ^ x).to_ne_bytes());
+                }
+                live.push((p.as_ptr() as *const u8, w));
+            }
+            11 => {
+                let fail_at = r.below(12) as usize;
+                let n = r.below(10) as usize;
+                let res = b.alloc_slice_try_fill_with(n, |i| if i == fail_at { Err(i as u8) } else { Ok(x.wrapping_add(i as u64)) });
+                match res {
+                    Ok(p) => {
+                        if p.iter().enumerate().any(|(i, v)| *v != x.wrapping_add(i as u64)) {
+                            fail("C02", "sig=C02/miri-wrong-initial-contents slice_try_fill".to_string());
+                        }
+                    }
+                    Err(e) => {
+                        if e as usize != fail_at {
+                            fail("C11", "sig=C11/miri-error-value-changed slice".to_string());
+                        }
+                    }
+                }
+            }
+            12 => {
+                let t: String = (0..r.below(20)).map(|i| ['a', 'é', '語', '😀'][(x as usize + i as usize) % 4]).collect();
+                let p = b.alloc_str(&t);
+                live.push((p.as_ptr(), t.into_bytes()));
+            }
+            13 | 14 => {
+                let l = Layout::from_size_align(r.below(700) as usize, 1 << r.below(5)).unwrap();
+                if let Ok(p) = b.try_alloc_layout(l) {
+                    let w = bytes(x, l.size());
+                    unsafe { std::ptr::copy_nonoverlapping(w.as_ptr(), p.as_ptr(), l.size()) };
+                    live.push((p.as_ptr() as *const u8, w));
+                }
+            }
+            15..=18 => {
+                // Allocator: allocate(_zeroed), then grow(_zeroed) or shrink with an alignment that
+                // may change, then sometimes deallocate
+                let a0 = 1usize << r.below(5);
+                let l0 = Layout::from_size_align(1 + r.below(90) as usize, a0).unwrap();
+                let zeroed = r.below(2) == 0;
+                let got = if zeroed { (&b).allocate_zeroed(l0) } else { (&b).allocate(l0) };
+                if let Ok(p0) = got {
+                    let p0 = p0.cast::<u8>();
+                    if zeroed && unsafe { std::slice::from_raw_parts(p0.as_ptr(), l0.size()) }.iter().any(|v| *v != 0) {
+                        fail("C12", "sig=C12/miri-allocate-zeroed-not-zero".to_string());
+                    }
+                    let w0 = bytes(x, l0.size());
+                    unsafe { std::ptr::copy_nonoverlapping(w0.as_ptr(), p0.as_ptr(), l0.size()) };
+                    // a neighbour allocated in between, sometimes
+                    if r.below(3) == 0 {
+                        let q = b.alloc(x ^ 0xFF);
+                        live.push((q as *const u64 as *const u8, (x ^ 0xFF).to_ne_bytes().to_vec()));
+                    }
+                    let a1 = 1usize << r.below(5);
+                    let grow = r.below(2) == 0;
+                    let n1 = if grow { l0.size() + r.below(200) as usize } else { r.below(l0.size() as u64 + 1) as usize };
+                    let l1 = Layout::from_size_align(n1, if grow { a1.min(a0) } else { a1 }).unwrap();
+                    let gz = r.below(2) == 0;
+                    let res = unsafe {
+                        if grow {
+                            if gz {
+                                (&b).grow_zeroed(p0, l0, l1)
+                            } else {
+                                (&b).grow(p0, l0, l1)
+                            }
+                        } else {
+                            (&b).shrink(p0, l0, l1)
+                        }
+                    };
+                    match res {
+                        Ok(p1) => {
+                            let p1 = p1.cast::<u8>();
+                            let keep = l0.size().min(l1.size());
+                            let got = unsafe { std::slice::from_raw_parts(p1.as_ptr(), keep) };
+                            if got != &w0[..keep] {
+                                fail("C12", format!("sig=C12/miri-prefix-not-preserved {}", if grow { "grow" } else { "shrink" }));
+                            }
+                            if grow && gz && unsafe { std::slice::from_raw_parts(p1.as_ptr().add(keep), l1.size() - keep) }.iter().any(|v| *v != 0) {
+                                fail("C12", "sig=C12/miri-grow-zeroed-tail-not-zero".to_string());
+                            }
+                            if p1.as_ptr() as usize % l1.align() != 0 {
+                                fail("C04", "sig=C04/miri-misaligned-after-realloc".to_string());
+                            }
+                            if r.below(2) == 0 {
+                                unsafe { (&b).deallocate(p1, l1) };
+                            } else {
+                                live.push((p1.as_ptr() as *const u8, w0[..keep].to_vec()));
+                            }
+                        }
+                        Err(_) => live.push((p0.as_ptr() as *const u8, w0)),
+                    }
+                }
+            }
+            19 => {
+                // chunk iteration: the newest chunk first, every live block inside exactly one item
+                let items: Vec<(usize, usize)> = unsafe { b.iter_allocated_chunks_raw() }.map(|(p, n)| (p as usize, n)).collect();
+                for (p, w) in &live {
+                    if w.is_empty() {
+                        continue;
+                    }
+                    let a = *p as usize;
+                    let n = items.iter().filter(|(s, l)| a >= *s && a + w.len() <= *s + *l).count();
+                    if n != 1 {
+                        fail("C10", format!("sig=C10/miri-live-block-not-in-exactly-one-item ({} items contain it)", n));
+                    }
+                }
+                let safe: Vec<(usize, usize)> = b.iter_allocated_chunks().map(|c| (c.as_ptr() as usize, c.len())).collect();
+                if safe != items {
+                    fail("C10", "sig=C10/miri-safe-and-raw-iteration-differ".to_string());
+                }
+            }
+            20 => {
+                verify(&live, "before reset");
+                live.clear();
+                b.reset();
+                if b.iter_allocated_chunks().map(|c| c.len()).sum::<usize>() != 0 {
+                    fail("C06", "sig=C06/miri-allocated-bytes-shown-after-reset".to_string());
+                }
+            }
+            21 => {
+                // a limit that forbids any new chunk: what fits still succeeds, the rest fails cleanly
+                let held = b.allocated_bytes();
+                b.set_allocation_limit(Some(held));
+                let big = b.try_alloc_layout(Layout::from_size_align(b.chunk_capacity() + 64, 1).unwrap());
+                if big.is_ok() && b.allocated_bytes() > held {
+                    fail("C07", "sig=C07/miri-chunk-over-limit".to_string());
+                }
+                b.set_allocation_limit(None);
+            }
+            _ => {
+                let (cc, ab, abm) = (b.chunk_capacity(), b.allocated_bytes(), b.allocated_bytes_including_metadata());
+                if abm < ab || (ab == 0) != (abm == 0) || cc > ab {
+                    fail("C08", format!("sig=C08/miri-accounting-inconsistent step {}", step));
+                }
+            }
+        }
+    }
+    verify(&live, "at the end");
+}
+
+fn scenario_arena(seed: u64) {
+    arena_on::<1>(seed);
+    arena_on::<8>(seed.wrapping_add(1));
+    arena_on::<16>(seed.wrapping_add(2));
+    arena_on::<2>(seed.wrapping_add(3));
+}
+
 fn main() {
     let args: Vec<String> = std::env::args().collect();
     let seed: u64 = args.get(2).and_then(|s| s.parse().ok()).unwrap_or(1);
@@ -421,6 +697,7 @@ fn main() {
         Some("handover") => scenario_handover(seed),
         Some("scripts") => scenario_scripts(seed),
         Some("collections") => scenario_collections(seed),
+        Some("arena") => scenario_arena(seed),
         Some("noop") => {}
         _ => {
             eprintln!("usage: bumpmiri zst|threads|handover|scripts [seed]");
